@@ -113,6 +113,9 @@ def build_proofs(prop, jobs=16):
     ensure_makefile()
     target = prop.props_file[:-2] + '.vo'
     (COQ / target).unlink(missing_ok=True)
+    # the modules the case shards import must be rebuilt too (they need not be dependencies of Props)
+    for m in getattr(prop, 'coq_imports', []):
+        target += ' theories/' + (m[3:] if m.startswith('PV.') else m).replace('.', '/') + '.vo'
     # Tie B: regenerate Gen/Leaves.v and Gen/Control.v from the current source (under the same lock as the build)
     cmd = (f"flock .build.lock sh -c 'for t in ../tools/py2coq*.py; do /venv/bin/python $t >/dev/null; done; "
            f"timeout 1500 make -j{jobs} {target}'")
